@@ -281,6 +281,10 @@ class BaseObserver(EventDispatcher):
                 raise RuntimeError("threads can only be started once")
             # Once stop() was requested nobody would stop the emitters again.
             for emitter in self._emitters.copy() if self.should_keep_running() else ():
+                if emitter.is_alive():
+                    # Started by an earlier start() that failed further down: starting it
+                    # again would fail and cost the watch its emitter.
+                    continue
                 try:
                     emitter.start()
                 except Exception:
